@@ -90,6 +90,9 @@ type Ctx struct {
 	nextID uint32
 	vars   []*Term
 	consts map[uint64]*Term // small cache keyed by w<<56^val for w<=8... see Const
+
+	maxBits  map[*Term]uint8 // facts proved under the path condition (pieces.go)
+	negative map[*Term]bool
 }
 
 func NewCtx() *Ctx {
@@ -451,6 +454,16 @@ func (c *Ctx) BvNot(a *Term) *Term {
 	if a.op == OpBvNot {
 		return a.a
 	}
+	if a.op == OpZext && a.a.op == OpBvNot {
+		k := a.w - a.a.w
+		return c.Concat(c.Const(k, mask(k)), a.a.a)
+	}
+	if a.op == OpConcat && a.a.IsConst() {
+		return c.Concat(c.Const(a.a.w, ^a.a.val), c.BvNot(a.b))
+	}
+	if a.op == OpConcat && a.b.IsConst() {
+		return c.Concat(c.BvNot(a.a), c.Const(a.b.w, ^a.b.val))
+	}
 	return c.mk(OpBvNot, a.w, a, nil, nil, 0)
 }
 func (c *Ctx) Neg(a *Term) *Term {
@@ -514,6 +527,9 @@ func (c *Ctx) BvOr(a, b *Term) *Term {
 	}
 	if same(a, b) {
 		return a
+	}
+	if m := c.mergeOr(a, b); m != nil {
+		return m
 	}
 	if !b.IsConst() && a.id > b.id {
 		a, b = b, a
@@ -773,6 +789,14 @@ func (c *Ctx) Concat(hi, lo *Term) *Term {
 	if hi.IsConst() && hi.val == 0 {
 		return c.Zext(lo, w)
 	}
+	if hi.op == OpBvNot && lo.op == OpBvNot {
+		if m := c.Concat(hi.a, lo.a); m.op != OpConcat {
+			return c.BvNot(m)
+		}
+	}
+	if hi.IsConst() && hi.w == 1 && hi.val == 1 && lo.op == OpExtract && uint8(lo.val) == 0 && lo.a.w == w && c.negative[lo.a] {
+		return lo.a
+	}
 	return c.mk(OpConcat, w, hi, lo, nil, 0)
 }
 
@@ -783,6 +807,13 @@ func (c *Ctx) Extract(a *Term, hi, lo uint8) *Term {
 	w := hi - lo + 1
 	if w == a.w {
 		return a
+	}
+	if mb, ok := c.maxBits[a]; ok && hi >= mb {
+		// bits at and above mb are known to be zero on this path
+		if lo >= mb {
+			return c.Const(w, 0)
+		}
+		return c.Zext(c.Extract(a, mb-1, lo), w)
 	}
 	switch a.op {
 	case OpConst:
@@ -861,6 +892,11 @@ func (c *Ctx) Zext(a *Term, w uint8) *Term {
 	}
 	if a.op == OpZext {
 		return c.Zext(a.a, w)
+	}
+	if a.op == OpExtract && uint8(a.val) == 0 && a.a.w == w {
+		if mb, ok := c.maxBits[a.a]; ok && mb <= a.w {
+			return a.a
+		}
 	}
 	return c.mk(OpZext, w, a, nil, nil, 0)
 }
